@@ -226,6 +226,7 @@ fn setup(o: &Opts, scratch: &Path, only_complete_reference: bool) -> Result<Ctx,
         expected_docs,
         repo: o.repo.clone(),
         alt: false,
+        rand: 1,
     };
     let out = launcher.simnode(&gold, &scratch.join("gold"), "gold", &session, 0);
     if let Some(e) = out.harness_error() {
@@ -268,7 +269,7 @@ fn setup(o: &Opts, scratch: &Path, only_complete_reference: bool) -> Result<Ctx,
             let alauncher = Launcher { bin_dir: bin.clone(), allowed: allowed_cpus(), child_timeout: Duration::from_secs(180) };
             let agold = Paths::new(scratch.join("alt-gold").join("xdg"));
             dirstate::wipe(&agold).unwrap_or_else(|e| harness_fail(&e.to_string()));
-            let asession = Session { cpus: 1, faults: vec![], ops: vec![Op::Open { slot: 0, mode: Mode::Disk, plan: Plan::default() }], expected_docs: ashipped.docs(), repo: repo.clone(), alt: true };
+            let asession = Session { cpus: 1, faults: vec![], ops: vec![Op::Open { slot: 0, mode: Mode::Disk, plan: Plan::default() }], expected_docs: ashipped.docs(), repo: repo.clone(), alt: true, rand: 1 };
             let aout = alauncher.simnode(&agold, &scratch.join("alt-gold"), "gold", &asession, 0);
             let ainfo = dirstate::inspect(&agold, &ashipped);
             let (av, ah) = match &ainfo.meta {
@@ -772,7 +773,7 @@ fn cmd_run(o: &Opts) -> i32 {
                     property: "C15".into(),
                     seed: 0,
                     label: "clean first start".into(),
-                    steps: vec![Step::Start { session: Session { cpus: 1, faults: vec![], ops: vec![Op::Open { slot: 0, mode: Mode::Disk, plan: Plan::default() }], expected_docs: 0, repo: String::new(), alt: false } }],
+                    steps: vec![Step::Start { session: Session { cpus: 1, faults: vec![], ops: vec![Op::Open { slot: 0, mode: Mode::Disk, plan: Plan::default() }], expected_docs: 0, repo: String::new(), alt: false, rand: 0 } }],
                 };
                 let v = Violation { property: "C15".into(), clause: "C15.clean-start".into(), step: 0, detail: why.clone(), focus: vec![], signature: "C15.clean-start".into() };
                 let path = write_replay(o, &h, &v, json!({"note": "reference start failed; not minimised"}));
@@ -1129,6 +1130,10 @@ fn cmd_run(o: &Opts) -> i32 {
     }
 }
 
+fn shim_built() -> bool {
+    std::env::var("VERIF_NO_SHIM").is_err() && std::env::current_exe().ok().and_then(|p| p.parent().map(|d| d.join("libverifrand.so").is_file())).unwrap_or(false)
+}
+
 fn write_evidence(o: &Opts, prop: &str, st: &Stats, violations: usize, t0: Instant, _corpus: usize, extra: Value) {
     let wall = t0.elapsed().as_secs_f64();
     let level = if prop == "C15" { "fault_enumeration" } else { "exploration" };
@@ -1174,7 +1179,8 @@ fn write_evidence(o: &Opts, prop: &str, st: &Stats, violations: usize, t0: Insta
         "components": {
             "real": ["anything library (feature verif)", "any binary (src/bin/any.rs)", "tantivy 0.19.2", "crossbeam-channel", "rayon", "serde_cbor", "flate2", "rust-embed", "OS threads (scheduled by the simulator through the tokenizer seam)", "local file system (private XDG_DATA_HOME per history)"],
             "stubbed": [],
-            "simulator_owned": ["which indexing worker receives which document", "worker release order before commit", "worker count via CPU affinity", "kill / io-error / EINTR / short-write injection at hook points", "directory damage between starts", "interleaving of open queries"]
+            "simulator_owned": ["which indexing worker receives which document", "worker release order before commit", "worker count via CPU affinity", "which producer thread feeds the next document", "which caller thread runs at every step / lookup / hook point", "kill / io-error / EINTR / short-write injection at hook points", "system-call level kill / errno / EINTR (ptrace)", "capacity of the data file system (tmpfs)", "directory damage between starts", "interleaving of open queries",
+                if shim_built() { "process randomness: getrandom(2) answered from a per-start seed (LD_PRELOAD), i.e. hash-map seeds and UUIDs" } else { "process randomness NOT owned in this run (no C compiler: the shim was not built)" }]
         }
     });
     if let (Value::Object(c), Value::Object(e)) = (&mut coverage, extra) {
